@@ -101,6 +101,8 @@ class DeferredDomain(effects.EffectDomain):
                     return res[1]   # (a paused Deferred's .result is the nested Deferred it waits for)
         if chain and chain[0] == "<yield>":
             return self._yield(chain[2], st, fr)
+        if len(chain) == 1 and chain[0] in ("bool", "repr", "str", "len") and not st.has(fr.local(chain[0])):
+            return ("builtin", chain[0])   # a builtin handed around as a value
         if len(chain) == 1 and isinstance(chain[0], str):
             f = self._lookup_function(chain[0], fr) or self.classes.lookup_function(getattr(fr.func, "_module", None), chain[0])
             if f is not None:
@@ -134,6 +136,13 @@ class DeferredDomain(effects.EffectDomain):
 
     def apply(self, interp, fn, pos, kw, st, fr):
         """Call the abstract callable ``fn`` with abstract arguments -> list of Result."""
+        if isinstance(fn, tuple) and fn[:1] == ("builtin",) and len(pos) == 1:
+            if fn[1] == "bool":
+                return [val({"T": TRUE, "F": FALSE}.get(self.truth(pos[0]), ("bool",)), st)]
+            if fn[1] == "len":
+                els = interp._exact_elements(pos[0])
+                return [val(("const", len(els)) if els is not None else TOP, st)]
+            return [val(("ret", fn[1], pos[0]), st)]
         if isinstance(fn, tuple) and fn[:1] == ("userfn",):
             # a user function of a given kind: returns / raises / returns a Deferred that has fired, failed or is pending
             log = st.get("ev.calls", ())
@@ -480,7 +489,7 @@ class DeferredDomain(effects.EffectDomain):
         # a local holding a first-class callable of this model
         if isinstance(f_, ast.Name) and st.has(fr.local(f_.id)):
             v = st.get(fr.local(f_.id))
-            if isinstance(v, tuple) and v[:1] in (("method",), ("listappend",), ("wobj",), ("partial",), ("userfn",)) and not any(isinstance(a, ast.Starred) for a in call.args) \
+            if isinstance(v, tuple) and v[:1] in (("method",), ("listappend",), ("wobj",), ("partial",), ("userfn",), ("builtin",)) and not any(isinstance(a, ast.Starred) for a in call.args) \
                     and all(k.arg is not None for k in call.keywords):
                 out = []
                 for r in interp.eval_list(list(call.args) + [k.value for k in call.keywords], st, fr):
